@@ -222,8 +222,12 @@ def run(ctx) -> None:
                   "config._pick_config_filepath: preference for already configured files changed", f"returns when {r.to_dnf()} with section test {sec.to_dnf()}", loc=pk.loc(first))
         opens = [s_ for s_ in effects.sites[pk.fq] if s_.detail.get("via") == "open"]
         ctx.check("R4", len(opens) == 1 and "b" in (opens[0].detail.get("mode") or ""), "first pass reads candidates in binary mode (no decoding errors)", "config._pick_config_filepath: candidate read mode changed", "", loc=pk.loc(first))
-        t2 = unparse(second)
-        ctx.check("R4", "config_filepath.exists()" in t2 and "return config_filepath" in t2 and "data" not in t2, "second pass: first existing candidate", "config._pick_config_filepath: existence fallback changed", "", loc=pk.loc(second))
+        rets2 = [n for n in ast.walk(second) if isinstance(n, ast.Return)]
+        ok2 = len(rets2) == 1 and unparse(rets2[0].value) == unparse(second.target)
+        if ok2:
+            r2 = pcg.reach(gk.node_containing(rets2[0].value)).drop_unused()
+            ok2 = len(r2.atoms) == 1 and r2.atoms[0].endswith(".exists()") and r2.equiv(BF.var(r2.atoms[0]))
+        ctx.check("R4", ok2, "second pass: the first existing candidate, whatever its content", "config._pick_config_filepath: existence fallback changed", "", loc=pk.loc(second))
     last = pk.node.body[-1]
     ctx.check("R4", isinstance(last, ast.Return) and unparse(last.value) == f"{pk.params[0]} / 'bumpver.toml'", "fallback: path / 'bumpver.toml'", "config._pick_config_filepath: fallback is not bumpver.toml", unparse(last), loc=pk.loc(last))
     for fmt, files in self_files.items():
@@ -231,9 +235,21 @@ def run(ctx) -> None:
         ctx.check("R4", cand_fmt <= set(tables[fmt]), f"default_config has a self snippet for every {fmt} candidate {sorted(cand_fmt)}", f"config.default_config: no self snippet for a {fmt} candidate file",
                   f"missing {sorted(cand_fmt - set(tables[fmt]))}", loc=dc.loc())
     # fallback when no config file exists: the self snippet of the file that will be created
-    src = unparse(dc.node)
-    ok = "if not has_config_file" in src and "DEFAULT_CONFIGPARSER_SETUP_CFG_STR" in src and "DEFAULT_TOML_BUMPVER_STR" in src and "any(((ctx.path / fn).exists() for fn in SUPPORTED_CONFIGS))" in src
-    ctx.check("R4", ok, "default_config adds the self snippet of the file to be created when no config file exists yet", "config.default_config: self snippet for a fresh project changed", "", loc=dc.loc())
+    dg = cfgs.get(dc.fq)
+    dpc = PathCond(dg)
+    hc = shapes.single_def(dc, "has_config_file")
+    ok_hc = hc is not None and isinstance(hc, ast.Call) and unparse(hc.func) == "any" and "SUPPORTED_CONFIGS" in unparse(hc) and ".exists()" in unparse(hc)
+    ctx.check("R4", ok_hc, "default_config: has_config_file = any candidate of SUPPORTED_CONFIGS exists", "config.default_config: detection of an existing config file changed", unparse(hc) if hc is not None else "", loc=dc.loc())
+    adds = {}
+    for n in dg.nodes:
+        if n.kind == "stmt" and isinstance(n.ast, ast.AugAssign) and unparse(n.ast.target) == "cfg_str" and isinstance(n.ast.value, ast.Name) and n.ast.value.id.startswith("DEFAULT_") and n.id in dg.reachable():
+            adds[n.ast.value.id] = dpc.reach(n.id).drop_unused()
+    for fmt, const in (("cfg", "DEFAULT_CONFIGPARSER_SETUP_CFG_STR"), ("toml", "DEFAULT_TOML_BUMPVER_STR")):
+        r = adds.get(const)
+        fa = [a for a in (r.atoms if r is not None else ()) if a.endswith(f"== '{fmt}'") and r.implies(BF.var(a))]
+        ok = r is not None and "has_config_file" in r.atoms and len(fa) >= 1 and r.project(["has_config_file", fa[0]]).equiv(~BF.var("has_config_file") & BF.var(fa[0]))
+        ctx.check("R4", ok, f"default_config: a fresh {fmt} project gets the self snippet of the file that will be created ({const})",
+                  f"config.default_config: a fresh project's {fmt} configuration lacks its own current_version pattern", f"{r.to_dnf() if r is not None else 'never added'}", loc=dc.loc())
 
 
 def _pattern_regex(ctx, pattern: str, parts: T.Dict[str, str]) -> str:
